@@ -7,6 +7,7 @@ import LdkModel.Model.Onion
      failbuild <shared-secret> <code> <data>                               → <packet>
      failwrap <shared-secret> <packet>                                     → <packet>
      faildecode <n> <shared-secret>* <packet>                              → attributed k code data | unattributable | …
+     failbuildx / failwrapx / faildecodex: the same with attribution data (hold times) — executable model only
    The payload TLV pretty-printer below is presentation only (the model treats payloads as opaque
    length-framed byte strings). -/
 namespace Ldk.Driver
@@ -70,6 +71,12 @@ def showFail : FailDecoded → String
   | .noCode k => s!"unreadable {k}"   -- the sender learns the same from both (NodeFailure of hop k, no code)
   | .unattributable => "unattributable"
 
+/-- serialized AttributionData (hold times ‖ hmacs) or `none` -/
+def attrOf (s : String) : Option Attr :=
+  if s == "none" then none else
+  let b := unhex s
+  some ⟨b.take (MAX_HOPS * HOLD_TIME_LEN), b.drop (MAX_HOPS * HOLD_TIME_LEN)⟩
+
 def pairsOf : List String → List (String × String)
   | a :: b :: rest => (a, b) :: pairsOf rest
   | _ => []
@@ -91,6 +98,29 @@ def c14 : Drv where
       ((), hex (buildFailure ldk (failKeysOfSecret (unhex ss)) (nat! code) (unhex data)))
     | ["failwrap", ss, pkt] =>
       ((), hex (wrapFailure ldk (failKeysOfSecret (unhex ss)) (unhex pkt)))
+    | ["failbuildx", ss, code, data, hold] =>
+      let (p, a) := buildFailureX ldk (failKeysXOfSecret (unhex ss)) (nat! code) (unhex data) (nat! hold)
+      ((), s!"{hex p} {hex (a.holdTimes ++ a.hmacs)}")
+    | ["failwrapx", ss, pkt, attr, hold] =>
+      let (p, a) := relayFailureX ldk (failKeysXOfSecret (unhex ss)) (unhex pkt) (attrOf attr) (nat! hold)
+      ((), s!"{hex p} {hex (a.holdTimes ++ a.hmacs)}")
+    | "faildecodex" :: n :: rest =>
+      if rest.length ≠ nat! n + 2 then ((), "bad-op") else
+      let keys := (rest.take (nat! n)).map fun ss => failKeysXOfSecret (unhex ss)
+      let (r, holds) := decodeFailureX ldk keys (unhex (rest.getD (nat! n) "-")) (attrOf (rest.getD (nat! n + 1) "none"))
+      let hs := if holds.isEmpty then "none" else ",".intercalate (holds.map toString)
+      ((), s!"{showFail r} holds={hs}")
+    | ["fulfilwrapx", ss, attr, hold] =>
+      let a := fulfillAttr ldk (failKeysXOfSecret (unhex ss)) (attrOf attr) (nat! hold)
+      ((), hex (a.holdTimes ++ a.hmacs))
+    | "fulfildecodex" :: n :: rest =>
+      if rest.length ≠ nat! n + 1 then ((), "bad-op") else
+      let keys := (rest.take (nat! n)).map fun ss => failKeysXOfSecret (unhex ss)
+      match attrOf (rest.getD (nat! n) "none") with
+      | none => ((), "bad-op")
+      | some a =>
+        let holds := decodeFulfillAttr ldk keys a
+        ((), "holds=" ++ (if holds.isEmpty then "none" else ",".intercalate (holds.map toString)))
     | "faildecode" :: n :: rest =>
       if rest.length ≠ nat! n + 1 then ((), "bad-op") else
       let keys := (rest.take (nat! n)).map fun ss => failKeysOfSecret (unhex ss)
